@@ -193,7 +193,7 @@ def main(v: Verdict) -> None:
         for k, order in enumerate(orders):
             files[f"perm{k:02d}.py"] = "\n".join(elem_src(style, e) for e in order)
         d = write_pkg(files, "dapk" + style.lower()[:3])
-        jobs.append({"src": d, "opts": Opts(docstyle=style), "timeout": 600})
+        jobs.append({"src": d, "opts": Opts(docstyle=style), "timeout": 600, "trace_cache": True})
         meta.append((style, d.name))
     runs = run_many(jobs)
     per_style = {}
@@ -201,6 +201,9 @@ def main(v: Verdict) -> None:
         if r.exit != "ok":
             v.extra.setdefault("unobservable", []).append({"style": style, "exit": r.exit, "exc": r.exc, "frame": r.frame, "msg": r.msg})
             continue
+        if r.cache:      # the real cache's lookups during this analysis, in the order the analyser made them
+            for c in range(0, len(r.cache), 4000):
+                obs.append({"id": f"cache:{style}:{c}", "kind": "cache", "obs": {"events": r.cache[c:c + 4000]}})
         stubs = Stubs(r)
         for rel, f in stubs.files.items():
             mod = (f.pymodule or f.package).split(".")[-1]
@@ -228,5 +231,6 @@ def main(v: Verdict) -> None:
     v.extra["lookup_sequences_replayed"] = n_replay
     v.extra["modules_judged"] = sum(1 for o in obs if o["kind"] == "module")
     v.extra["style_pairs_judged"] = sum(1 for o in obs if o["kind"] == "style")
+    v.extra["real_cache_lookups_validated"] = sum(len(o["obs"]["events"]) for o in obs if o["kind"] == "cache")
     v.assumptions += ["every documented item carries a unique token; tokens found in an answer or comment are extracted by the harness",
                       "style equivalence is judged on one-line parameter/result descriptions and two-line summaries only"]
